@@ -48,7 +48,9 @@ def shards(tier, seed):
                ("AdaptiveBalance", "affine"))]
     for i, it in enumerate(items):
         it["id"] = i
-    return [{"shard": i, "items": items[i::k]} for i in range(k)]
+    out = [{"shard": i, "items": items[i::k]} for i in range(k)]
+    out.append({"shard": k, "items": [], "repo_tests": ["tests/unit/test_correction.py"]})
+    return out
 
 
 def gen_swatches(rng):
@@ -102,6 +104,11 @@ def run_shard(spec, R):
 
     from vf.gen.images import rng_for
 
+    if spec.get("repo_tests"):
+        # colour correction of the repository's test photograph: the real white-balance-then-colour-balance path
+        from vf.ambient import run_repo_tests
+
+        return run_repo_tests(R, spec["repo_tests"])
     for it in spec["items"]:
         if not R.want(["item", it["id"]]):
             continue
